@@ -27,11 +27,18 @@ type rec struct {
 	TxHash  []byte
 }
 
-type model struct{ recs []rec }
+type model struct {
+	recs []rec
+	// pending: verdicts of a restart-from-genesis (reported by Check of the state the restart leads to)
+	pending []mc.Finding
+}
 
 func (m *model) Clone() mc.Model { return &model{recs: append([]rec{}, m.recs...)} }
 func (m *model) Canon() []byte {
 	var b bytes.Buffer
+	for _, f := range m.pending {
+		b.WriteString(f.Sig + ";")
+	}
 	for _, r := range m.recs {
 		fmt.Fprintf(&b, "%s|%d|%s|%x;", r.ID, r.Content, r.Creator, r.TxHash)
 	}
@@ -185,9 +192,96 @@ func (d *Driver) Apply(e *mc.Env, s *mc.State, op mc.Op) []mc.Finding {
 	return fs
 }
 
+// Restarted (mc.RestartAware): the chain was restarted from its own exported record genesis. "Read back for ever
+// after ... nothing can alter or delete it": every record must still be readable under the id its creator was
+// given. The module's genesis carries no ids (they are recomputed on import: the recorded finding), so the
+// reference then learns the new ids by content - every record must at least still exist, exactly once per
+// creation - and keeps judging what follows (new creations may not collide with them).
+func (d *Driver) Restarted(e *mc.Env, s *mc.State) {
+	m := s.Model.(*model)
+	type stored struct {
+		id   string
+		r    recordtypes.Record
+		used bool
+	}
+	var have []*stored
+	it := e.Record.RecordsIterator(s.Ctx)
+	for ; it.Valid(); it.Next() {
+		var r recordtypes.Record
+		recordtypes.ModuleCdc.MustUnmarshal(it.Value(), &r)
+		have = append(have, &stored{id: hex.EncodeToString(it.Key()[1:]), r: r})
+	}
+	it.Close()
+	same := func(r rec, st *stored) bool {
+		want := contentsOf(r.Content)
+		if st.r.Creator != mc.Addr(r.Creator).String() || st.r.TxHash != cmtbytes.HexBytes(r.TxHash).String() || len(st.r.Contents) != len(want) {
+			return false
+		}
+		for i := range want {
+			if !st.r.Contents[i].Equal(want[i]) {
+				return false
+			}
+		}
+		return true
+	}
+	moved, lost := 0, 0
+	// first pass: records still under their id
+	for i := range m.recs {
+		for _, st := range have {
+			if !st.used && st.id == m.recs[i].ID && same(m.recs[i], st) {
+				st.used = true
+				m.recs[i].Creator += "" // unchanged
+				break
+			}
+		}
+	}
+	for i := range m.recs {
+		kept := false
+		for _, st := range have {
+			if st.used && st.id == m.recs[i].ID {
+				kept = true
+			}
+		}
+		if kept {
+			continue
+		}
+		found := false
+		for _, st := range have {
+			if !st.used && same(m.recs[i], st) {
+				st.used, found = true, true
+				m.recs[i].ID = st.id
+				moved++
+				break
+			}
+		}
+		if !found {
+			lost++
+		}
+	}
+	if moved > 0 {
+		m.pending = append(m.pending, mc.F("C19/id-not-permanent/restart-from-genesis", "%d of %d records can no longer be read under the id their creator was given after the chain was restarted from its own exported genesis (the record is still there, under another id)", moved, len(m.recs)))
+	}
+	if lost > 0 || len(have) != len(m.recs) {
+		m.pending = append(m.pending, mc.F("C19/record-lost-or-altered/restart-from-genesis", "%d created records, %d stored after the restart, %d without a stored record of the same contents, creator and tx hash", len(m.recs), len(have), lost))
+		// resynchronise: forget what is gone
+		var keep []rec
+		for _, r := range m.recs {
+			for _, st := range have {
+				if st.id == r.ID {
+					keep = append(keep, r)
+					break
+				}
+			}
+		}
+		m.recs = keep
+	}
+}
+
 func (d *Driver) Check(e *mc.Env, s *mc.State) []mc.Finding {
 	m := s.Model.(*model)
 	var fs []mc.Finding
+	fs = append(fs, m.pending...)
+	m.pending = nil
 	for _, r := range m.recs {
 		res, err := e.Record.Record(s.Ctx, &recordtypes.QueryRecordRequest{RecordId: r.ID})
 		if err != nil || res.Record == nil {
@@ -265,6 +359,11 @@ func MsgSurface() (methods []string, findings []mc.Finding) {
 	return
 }
 
+func restarting() (*mc.Env, mc.Driver) {
+	e, d := New()
+	return e, &mc.Restarting{Driver: d, Modules: []string{"record"}, RejectSig: "C19/restart-from-genesis-refused"}
+}
+
 // Parts of the C19 check.
 func Parts() []mc.Part {
 	surface := mc.Part{Name: "msg-surface", Run: func(tier string, known []mc.KnownFinding, dl time.Time) mc.PartReport {
@@ -279,6 +378,9 @@ func Parts() []mc.Part {
 		mc.ExplorePartC("search", New, 6, 8, true, "state with >= 2 records created on the path; distinct by canonical store+model hash",
 			&mc.ConfOpts{Stores: []string{"record"}, SkipDenoms: map[string]bool{"stake": true}, MaxPaths: 150, SignInSeam: true}),
 		mc.ExplorePart("search-near-counter-wrap", NewNearWrap, 5, 6, true, "as search; the record counter starts at 2^32-3"),
+		// a history may contain a restart of the chain from its own exported genesis: what was created must still be
+		// there afterwards (a module refusing its own export leaves a chain that cannot come back at all)
+		mc.ExplorePart("search-restarting", restarting, 5, 6, true, "as search, plus restart-from-genesis as an operation"),
 		surface,
 	}
 }
